@@ -7,10 +7,14 @@ HOOK_COMMITS = ["50f8845"]
 # property -> (level text, note)
 CLAIMED = {
  "C01": ("all schedules of every client program of the family (shapes up to 3 operations over the full submission alphabet, 4 operations over representatives; mailbox U/B0/B1/B2; instant and yielding handlers) are executed on the real code; handler overlap, at-most-once, real-time FIFO order and state-is-fold are evaluated on every complete execution", ""),
+ "C02": ("all schedules of 2-3 concurrent callers through Addr/OwningAddr/Caller/WeakCaller plus a resolver (halt/await/join), crossed with every termination cause at every position (client stop, last drop, start failure/panic, handler panic, stopped panic, timeout failure, cancellation before the j-th poll); own-response, resolves, and verdict clauses on every execution", ""),
  "C04": ("all schedules of stop requests through every entry point racing with submissions and awaiters; drain barrier, post-stop barrier, announce-after-stopped and verdict clauses evaluated on every complete execution", ""),
+ "C07": ("all schedules of programs with 1-2 restart requests (Addr::restart, Context::restart) at every position among sends/calls, three strategies, start failure on restart, timers registered in started() and in handlers on the virtual clock; incarnation-bounds, strategy semantics, state carried/reset and stale-timer clauses on every execution", ""),
  "C08": ("all schedules (lock acquisitions are scheduling points) of registry histories of 1-3 clients; every complete execution's history is checked by brute force for a linearization against a sequential registry model", "identity of an address is observed by a call through it"),
  "C12": ("all schedules of 1-3 senders (waiting and forcing paths, interval_with, a concurrent stop) on mailboxes U/B0..B2; the backpressure bound is evaluated at every log position of every execution", ""),
  "C14": ("all schedules of termination cause x awaiting pattern x observer kind; stopped()/running() answers compared with the termination step on every execution", ""),
+ "C15": ("every non-empty subset of {Addr, OwningAddr, Sender, Caller} as the only surviving strong handles, built through three conversion paths, with self-stop, self-restart, interval, delayed_send and every weak upgrade probed; all schedules", ""),
+ "C17": ("all schedules of owner scripts (join, repeated and concurrent joins, consume, consume_sync, detach, to_addr+drop, late variants) against submitters, a stopper and failure causes; join-after-termination, final-state, handed-out-once clauses on every execution", ""),
 }
 
 REASON_PENDING = "check not built yet in this round (planned, DESIGN.md section 3); not claimed until it runs"
